@@ -438,6 +438,39 @@ theorem pixel_rule_generated [Trig ℚ] (c0 cs p : ℚ) (hcs : 0 < cs) :
     pixelCasts = ["int", "int"] :=
   pixel_generated c0 cs p hcs
 
+/-- **a search leaves the caller's raster alone and the cell mapping is a function of this raster's coordinates and `res`
+    only**: no statement of `a_star_search`, `_get_pixel_id`, `get_dataarray_resolution`, `calc_res`, `get_xy_range`, or of a
+    kernel the surface (or a part of it) is handed to, stores into the raster -- no `raster.attrs[...] = ...`, no item /
+    attribute assignment, `del`, mutating method, `out=`, `inplace=True`, directly or through a local alias --, the raster
+    is handed to no function outside pathfinding.py / utils.py, and everything `_get_pixel_id` reads of it is in
+    the list below: the dimension names and the shape, the two coordinate arrays (`_get_pixel_id` takes their first element,
+    `calc_res` their extremes) and the `res` attribute.  This is what the model assumes when it maps a point with `pixelId c0 cs p` where `c0`, `cs` come
+    from the raster of the call itself: nothing an earlier call computed is remembered on the caller's objects (xarray
+    carries `attrs` through slicing, `assign_coords`, `copy`; a cell size cached there would be read back by
+    `get_dataarray_resolution` for a raster derived with another spacing -- seeded change C14-6; the `derived` stream of
+    the correspondence run searches such rasters) -/
+theorem cell_mapping_reads_coords_or_res :
+    surfaceWrites = [] ∧ pixelRasterWrites = [] ∧ surfaceEscapes = [] ∧
+    (∀ r ∈ pixelRasterReads, r ∈ (
+      ["_get_pixel_id: get_dataarray_resolution(raster, xdim, ydim)",
+       "_get_pixel_id: raster.coords[xdim].data",
+       "_get_pixel_id: raster.coords[ydim].data",
+       "_get_pixel_id: raster.dims[-1]",
+       "_get_pixel_id: raster.dims[-2]",
+       "calc_res: get_xy_range(raster, xdim, ydim)",
+       "calc_res: raster.shape[-2:]",
+       "get_dataarray_resolution: calc_res(raster, xdim, ydim)",
+       "get_dataarray_resolution: raster.attrs.get('res')",
+       "get_xy_range: raster.dims[-1]",
+       "get_xy_range: raster.dims[-2]",
+       "get_xy_range: raster[xdim].max().item()",
+       "get_xy_range: raster[xdim].min().item()",
+       "get_xy_range: raster[ydim].max().item()",
+       "get_xy_range: raster[ydim].min().item()"] : List String)) ∧
+    "get_dataarray_resolution: raster.attrs.get('res')" ∈ pixelRasterReads ∧
+    "_get_pixel_id: raster.coords[ydim].data" ∈ pixelRasterReads ∧
+    "_get_pixel_id: raster.coords[xdim].data" ∈ pixelRasterReads := by decide
+
 /-- **`_find_nearest_pixel` is `findNearest`**: the queried cell is kept exactly when it is crossable;
     the running minimum starts at infinity and the scan is row-major; one iteration of the scan is
     `nearStep` (the code compares Euclidean distances, the model their squares) -/
